@@ -1,22 +1,24 @@
 (* Integrated model of the flat-resource fragment of the gateway: any number of connections, one cached resource; subscribe
    requests (any number per connection: direct subscriptions are counted) with their access and get requests, access answers
    that grant or deny, unsubscribe requests with a count, re-subscription after the subscription was given up, change and
-   custom events, client disconnects at any moment, and both kinds of task queue (the resource's cache queue and every
-   connection's queue, which carries requests, access answers, the Loaded/Event items of its subscriptions and the disposal
-   task in arrival order).  One [op] is one stimulus of the harness (client frame, client disconnect, service answer, service
-   event) or one scheduler grant; [step] returns what the gateway emits on it.  A connection's Subscription object for the
-   resource is an *instance*: a fresh index of the subscriber table of Comp/Conv.v each time one is created
-   (wsConn.subscribe after the previous one was disposed).  The cache/subscription core IS Comp/Conv.v: every op is executed
-   as a short list of Conv actions ([acts_of]), so every reachable state of this machine is a reachable Conv state and
-   Conv's invariant and theorems apply to it unchanged.
+   custom events, token events of a connection and reaccess events of the resource with the re-validation of access they
+   trigger (deferred while the subscription is loading, joined to a request already in flight, revocation by an unsubscribe
+   event), client disconnects at any moment, and both kinds of task queue (the resource's cache queue and every connection's
+   queue, which carries requests, token events, access answers, the Loaded/Event/reaccess items of its subscriptions and the
+   disposal task in arrival order).  One [op] is one stimulus of the harness (client frame, client disconnect, service answer,
+   service event) or one scheduler grant; [step] returns what the gateway emits on it.  A connection's Subscription object
+   for the resource is an *instance*: a fresh index of the subscriber table of Comp/Conv.v each time one is created
+   (wsConn.subscribe after the previous one was disposed).  The cache/subscription core IS Comp/Conv.v: a connection task is
+   a sequence of Conv actions applied one after the other ([act]); what [step] does to the Conv state is exactly the list of
+   actions it records ([acts_of]), so every reachable state of this machine is a reachable Conv state.
    Mirrors: rpc.HandleRequest (subscribe / unsubscribe with count), wsConn.SubscribeResource / subscribe / addCount /
-   UnsubscribeResource / UnsubscribeByRID / removeCount / tryDelete (no references) / Access / Dispose / dispose,
+   UnsubscribeResource / UnsubscribeByRID / removeCount / tryDelete (no references) / Access / setToken / Dispose / dispose,
    Subscription.CanGet / loadAccess (callbacks joined on one request; verdict cached) and Cache.sendRequest (the access answer
    passes through the resource's queue, then is handled on the connection queue), OnReady / readyCallbacks + GetRPCResources
-   (empty for a resource already sent) + ReleaseRPCResources (respond, then drain the held events), Subscription.Dispose
-   (pending callbacks are dropped), rescache.Subscribe / addSubscriber (first subscriber sends the get request),
-   ResourceSubscription.Unsubscribe, EventSubscription.Enqueue / processQueue, wsConn.outputWorker / Enqueue (refused while
-   disposing). *)
+   (empty for a resource already sent) + ReleaseRPCResources, queueEvents / unqueueEvents (both reasons), Reaccess / reaccess /
+   handleReaccess / validateAccess / unsubscribeDirect, Subscription.Dispose (pending callbacks are dropped),
+   rescache.Subscribe / addSubscriber, ResourceSubscription.Unsubscribe / handleEvent (reaccess passes before the resource is
+   loaded), EventSubscription.Enqueue / processQueue, wsConn.outputWorker / Enqueue (refused while disposing). *)
 From Coq Require Import List Arith Lia Bool.
 From RG Require Import Comp.Conv.
 Import ListNotations.
@@ -29,54 +31,65 @@ Notation cstep := (Conv.step val upd app norm).
 Notation csubs := (Conv.subs val upd).
 Notation sub := (Conv.sub val upd).
 
-Inductive qitem := QReq (id : nat) | QUnsub (id cnt : nat) | QAccess (i : nat) | QSub (i : nat) | QDispose.
+Inductive qitem := QReq (id : nat) | QUnsub (id cnt : nat) | QToken (t : nat) | QAccess (i : nat) | QSub (i : nat) | QDispose.
 
 Record conn := { cqueue : list qitem;       (* wsConn.queue, oldest first *)
                  cur : option nat;          (* c.subs[rid]: the instance, if any *)
                  direct : nat;              (* its direct subscription count *)
+                 tokset : bool;             (* a token event has been handled (c.token != nil) *)
+                 tok : nat;                 (* the token (0: none / null) *)
                  disc : bool }.             (* the client closed the connection *)
 
+(* what waits for an access answer: a subscribe request, or the validation started by a re-access trigger *)
+Inductive acbk := AReq (id : nat) | AVal.
+
 Record inst := { owner : nat;               (* connection *)
-                 acb : list nat;            (* accessCallbacks: ids of the requests waiting for the verdict *)
+                 acb : list acbk;           (* accessCallbacks *)
                  rcb : list nat;            (* readyCallbacks: ids of the requests waiting for the resource *)
-                 acc : option bool;         (* Subscription.access: the verdict handled on the connection queue *)
-                 ans : option bool;         (* the answer delivered by the messaging system *)
+                 acc : option bool;         (* Subscription.access: the cached verdict *)
+                 inflight : bool;           (* flagAccessCalled: an access request is out *)
+                 ans : option bool;         (* its answer, delivered by the messaging system and not yet handled *)
+                 reflag : bool;             (* flagReaccess: a trigger arrived while events were being queued *)
+                 rq : bool;                 (* queueReasonReaccess: events are held until the re-validation is answered *)
                  lost : list nat }.         (* ids of requests whose callbacks were dropped by Dispose *)
 
 Record st := { cv : cst; conns : nat -> conn; insts : nat -> inst; next : nat; mqsub : bool; getreq : bool }.
 
 Inductive ecode := EDenied | ENoSub | EInvalid.
 Inductive out :=
-| OMqSub | OAccessReq (c i : nat) | OGetReq
+| OMqSub | OAccessReq (c i t : nat) | OGetReq   (* access request of connection c for instance i carrying token t *)
 | OResp (c id : nat) (v : option val)   (* result; the resource set holds the resource, or is empty when the client has it *)
 | OErr (c id : nat) (e : ecode)
 | OAck (c id k : nat)                   (* unsubscribe of k direct subscriptions succeeded *)
 | OEvent (c : nat) (u : upd) | OCustom (c : nat)
+| OUnsubEv (c : nat)                    (* unsubscribe event: access was revoked *)
 | OConnUnsub (c : nat).                 (* the connection's own subscription at the messaging system is given up *)
 
 Inductive op :=
 | CSub (c id : nat)            (* client frame: subscribe *)
 | CUnsub (c id cnt : nat)      (* client frame: unsubscribe with count (0 stands for a count that is not positive) *)
 | Disc (c : nat)               (* the client closes the connection *)
+| ConnToken (c t : nat)        (* the service sets connection c's token *)
 | MqAccess (i : nat) (g : bool)(* the service answers the access request made for instance i: get granted or not *)
 | MqGet                        (* the service answers the get request with its current state *)
 | MqEvent (u : upd) | MqCustom (* service events *)
+| MqReacc                      (* the service emits a reaccess event for the resource *)
 | GrantEs                      (* cache worker runs the head of the resource's queue *)
 | GrantConn (c : nat).         (* connection worker runs the head of connection c's queue *)
 
-Definition unanswered (y : inst) : bool := match ans y with None => true | Some _ => false end.
-Definition conn0 : conn := {| cqueue := []; cur := None; direct := 0; disc := false |}.
-Definition inst0 : inst := {| owner := 0; acb := []; rcb := []; acc := None; ans := None; lost := [] |}.
+Definition conn0 : conn := {| cqueue := []; cur := None; direct := 0; tokset := false; tok := 0; disc := false |}.
+Definition inst0 : inst := {| owner := 0; acb := []; rcb := []; acc := None; inflight := false; ans := None;
+                              reflag := false; rq := false; lost := [] |}.
 Definition init (t : val) : st :=
   {| cv := Conv.init val upd d t; conns := fun _ => conn0; insts := fun _ => inst0; next := 0; mqsub := false; getreq := false |}.
 
 Definition set_conn (f : nat -> conn) (c : nat) (x : conn) : nat -> conn := fun c' => if Nat.eqb c' c then x else f c'.
 Definition set_inst (f : nat -> inst) (i : nat) (x : inst) : nat -> inst := fun i' => if Nat.eqb i' i then x else f i'.
-Definition with_q (x : conn) (q : list qitem) : conn := {| cqueue := q; cur := cur x; direct := direct x; disc := disc x |}.
+Definition with_q (x : conn) (q : list qitem) : conn :=
+  {| cqueue := q; cur := cur x; direct := direct x; tokset := tokset x; tok := tok x; disc := disc x |}.
 Definition push_q (x : conn) (i : qitem) : conn := with_q x (cqueue x ++ [i]).
-Definition pop_q (x : conn) : conn := with_q x (tl (cqueue x)).
-Definition with_cbs (y : inst) (a r : list nat) (ac : option bool) (l : list nat) : inst :=
-  {| owner := owner y; acb := a; rcb := r; acc := ac; ans := ans y; lost := l |}.
+Definition with_cd (x : conn) (cu : option nat) (n : nat) : conn :=
+  {| cqueue := cqueue x; cur := cu; direct := n; tokset := tokset x; tok := tok x; disc := disc x |}.
 
 (* Subscription.processEvent with what it sends *)
 Definition proc_o (c : nat) (p : nat * val) (e : Conv.ev upd) : (nat * val) * list out :=
@@ -92,23 +105,106 @@ Fixpoint replay_o (c : nat) (p : nat * val) (l : list (Conv.ev upd)) : list out 
   | [] => []
   | e :: l' => let '(p', o) := proc_o c p e in o ++ replay_o c p' l'
   end.
+Definition drained (c : nat) (x : sub) : list out :=
+  replay_o c (Conv.sver val upd x, Conv.sval val upd x) (Conv.eq val upd x).
 
-(* the responses of the subscribe requests [ids] once access is granted and the resource loaded: the first one carries the
-   snapshot (unless the client has the resource already) and is followed by the events held since it was taken *)
-Definition respond_ids (c : nat) (x : sub) (ids : list nat) : list out :=
+(* ---- one connection task: the Conv state it works on, the Conv actions it has applied, its connection, the Subscription
+        object (instance) it serves, and what it has sent so far ---- *)
+Record tk := { ts : cst; ta : list (Conv.action upd); tx : conn; ty : inst; to : list out }.
+Definition act (k : tk) (a : Conv.action upd) : tk :=
+  {| ts := cstep (ts k) a; ta := ta k ++ [a]; tx := tx k; ty := ty k; to := to k |}.
+Definition emit (k : tk) (o : list out) : tk := {| ts := ts k; ta := ta k; tx := tx k; ty := ty k; to := to k ++ o |}.
+Definition setx (k : tk) (x : conn) : tk := {| ts := ts k; ta := ta k; tx := x; ty := ty k; to := to k |}.
+Definition sety (k : tk) (y : inst) : tk := {| ts := ts k; ta := ta k; tx := tx k; ty := y; to := to k |}.
+Definition upd_y (y : inst) (a : list acbk) (r : list nat) (ac : option bool) (fl : bool) (an : option bool) (rf rqq : bool) (l : list nat) : inst :=
+  {| owner := owner y; acb := a; rcb := r; acc := ac; inflight := fl; ans := an; reflag := rf; rq := rqq; lost := l |}.
+
+Section Task.
+Variables (c i : nat).     (* the connection and the instance the task works on *)
+Definition me (k : tk) : sub := csubs (ts k) i.
+Definition gone_ (k : tk) : bool := Conv.gone val upd (me k).
+Definition loaded_ (k : tk) : bool := Conv.loaded val upd (me k).
+Definition sent_ (k : tk) : bool := Conv.sent val upd (me k).
+Definition flag_ (k : tk) : bool := Conv.flag val upd (me k).
+Definition ids_of (l : list acbk) : list nat := flat_map (fun b => match b with AReq id => [id] | AVal => [] end) l.
+
+(* Subscription.Dispose (no references) + delete(c.subs, rid): the waiting continuations are dropped *)
+Definition dispose_t (k : tk) : tk :=
+  if gone_ k then k else
+  let k := act k (Conv.Dispose upd i false) in
+  let y := ty k in
+  let k := sety k (upd_y y (acb y) [] (acc y) (inflight y) (ans y) (reflag y) (rq y) (lost y ++ rcb y)) in
+  setx k (with_cd (tx k) None (direct (tx k))).
+(* wsConn.removeCount (direct) with tryDelete *)
+Definition remove_direct (k : tk) (n : nat) : tk :=
+  if Nat.eqb (direct (tx k)) 0 then k else
+  let k := setx k (with_cd (tx k) (cur (tx k)) (direct (tx k) - n)) in
+  if Nat.eqb (direct (tx k)) 0 then dispose_t k else k.
+(* Subscription.unsubscribeDirect *)
+Definition unsubscribe_direct (k : tk) : tk :=
+  if Nat.ltb 0 (direct (tx k)) then emit (remove_direct k (direct (tx k))) [OUnsubEv c] else k.
+(* Subscription.loadAccess for a continuation that cannot run at once (no cached verdict) *)
+Definition load_access (k : tk) (b : acbk) : tk :=
+  let y := ty k in
+  let k := sety k (upd_y y (acb y ++ [b]) (rcb y) (acc y) (inflight y) (ans y) (reflag y) (rq y) (lost y)) in
+  if inflight y then k else
+  let y := ty k in
+  emit (sety k (upd_y y (acb y) (rcb y) (acc y) true (ans y) (reflag y) (rq y) (lost y))) [OAccessReq c i (tok (tx k))].
+(* Subscription.handleReaccess *)
+Definition handle_reaccess (k : tk) : tk :=
+  let y := ty k in
+  let k := sety k (upd_y y (acb y) (rcb y) (acc y) (inflight y) (ans y) false (rq y) (lost y)) in
+  if Nat.eqb (direct (tx k)) 0 then k else
+  let y := ty k in
+  let k := sety k (upd_y y (acb y) (rcb y) None (inflight y) (ans y) (reflag y) true (lost y)) in
+  load_access (act k (Conv.StartQueue upd i)) AVal.
+(* Subscription.reaccess *)
+Definition reaccess (k : tk) : tk :=
+  if gone_ k then k
+  else if flag_ k then
+    let y := ty k in sety k (upd_y y (acb y) (rcb y) (acc y) (inflight y) (ans y) true (rq y) (lost y))
+  else handle_reaccess k.
+(* GetRPCResources + Reply + ReleaseRPCResources for the first of the waiting requests, empty results for the others *)
+Definition respond (k : tk) (ids : list nat) : tk :=
   match ids with
-  | [] => []
+  | [] => k
   | id :: r =>
-      (if Conv.sent val upd x then [OResp c id None]
-       else OResp c id (Some (Conv.sval val upd x)) :: replay_o c (Conv.sver val upd x, Conv.sval val upd x) (Conv.eq val upd x))
-      ++ map (fun id' => OResp c id' None) r
+      let k :=
+        if sent_ k then emit k [OResp c id None]
+        else
+          let k := emit k [OResp c id (Some (Conv.sval val upd (me k)))] in
+          if reflag (ty k) then
+            (* unqueueEvents(loading) starts with the deferred re-access: the held events stay held *)
+            handle_reaccess (act k (Conv.Respond upd i 0))
+          else
+            let ev := drained c (me k) in
+            emit (act k (Conv.Respond upd i (length (Conv.eq val upd (me k))))) ev in
+      emit k (map (fun id' => OResp c id' None) r)
   end.
-(* the Conv action that goes with it *)
-Definition respond_acts (i : nat) (x : sub) (ids : list nat) : list (Conv.action upd) :=
-  match ids with
-  | [] => []
-  | _ => if Conv.sent val upd x then [] else [Conv.Respond upd i (length (Conv.eq val upd x))]
+(* Subscription.OnReady for request id *)
+Definition on_ready (k : tk) (id : nat) : tk :=
+  if loaded_ k then respond k [id]
+  else let y := ty k in sety k (upd_y y (acb y) (rcb y ++ [id]) (acc y) (inflight y) (ans y) (reflag y) (rq y) (lost y)).
+(* unqueueEvents(reaccess) after a validation *)
+Definition unqueue_reaccess (k : tk) : tk :=
+  let y := ty k in
+  let k := sety k (upd_y y (acb y) (rcb y) (acc y) (inflight y) (ans y) (reflag y) false (lost y)) in
+  if gone_ k then k
+  else if reflag (ty k) then handle_reaccess k
+  else
+    let ev := drained c (me k) in
+    emit (act k (Conv.Unqueue upd i (length (Conv.eq val upd (me k))))) ev.
+(* one waiting continuation run on the verdict g *)
+Definition run_cb (g : bool) (k : tk) (b : acbk) : tk :=
+  match b with
+  | AReq id =>
+      if g then (if gone_ k then k else on_ready k id)
+      else remove_direct (emit k [OErr c id EDenied]) 1
+  | AVal =>
+      unqueue_reaccess (if g then k else unsubscribe_direct k)
   end.
+End Task.
+
 Definition is_live (σ : cst) (i : nat) : bool := Conv.loaded val upd (csubs σ i).
 Definition is_closed (σ : cst) (i : nat) : bool := Conv.closed val upd (csubs σ i).
 Definition is_gone (σ : cst) (i : nat) : bool := Conv.gone val upd (csubs σ i).
@@ -131,48 +227,112 @@ Definition pass (σ : cst) (own : nat -> nat) (f : nat -> conn) : nat -> conn :=
 Definition is_add_head (σ : cst) : bool :=
   match Conv.qe val upd σ with Conv.IAddSub _ _ _ :: _ => true | _ => false end.
 
+(* the disposal task of the connection has run: tasks are refused *)
+Definition is_done (x : conn) : bool := disc x && negb (existsb (fun it => match it with QDispose => true | _ => false end) (cqueue x)).
 Definition insts_of (s : st) (c : nat) : list nat := filter (fun i => Nat.eqb (owner (insts s i)) c) (seq 0 (next s)).
+Definition unanswered (y : inst) : bool := inflight y && match ans y with None => true | Some _ => false end.
+
+(* the task a grant of connection c runs: (final task state, the instance it served if any, new value of [next], mqsub) *)
+Definition conn_task (s : st) (c : nat) : tk * option nat * nat * bool :=
+  let x := conns s c in
+  let k0 (x' : conn) (y : inst) := {| ts := cv s; ta := []; tx := x'; ty := y; to := [] |} in
+  match cqueue x with
+  | [] => (k0 x inst0, None, next s, mqsub s)
+  | QReq id :: q =>
+      let x := with_q x q in
+      match cur x with
+      | None =>
+          (* NewSubscription; cache.Subscribe; CanGet sends the access request *)
+          let i := next s in
+          let y := {| owner := c; acb := []; rcb := []; acc := None; inflight := false; ans := None; reflag := false; rq := false; lost := [] |} in
+          let k := act (k0 (with_cd x (Some i) 1) y) (Conv.Subscribe upd i) in
+          let k := emit k (if mqsub s then [] else [OMqSub]) in
+          (load_access c i k (AReq id), Some i, S i, true)
+      | Some i =>
+          let k := k0 (with_cd x (cur x) (S (direct x))) (insts s i) in
+          let k := match acc (ty k) with
+                   | Some true => on_ready c i k id
+                   | Some false => remove_direct i (emit k [OErr c id EDenied]) 1
+                   | None => load_access c i k (AReq id)
+                   end in
+          (k, Some i, next s, mqsub s)
+      end
+  | QUnsub id cnt :: q =>
+      let x := with_q x q in
+      match cur x with
+      | Some i =>
+          let k := k0 x (insts s i) in
+          let k := if Nat.eqb cnt 0 then emit k [OErr c id EInvalid]
+                   else if Nat.leb cnt (direct x) then
+                     (* the continuations still waiting are dropped if the subscription is disposed *)
+                     let k := emit k [OAck c id cnt] in
+                     let k := if Nat.eqb (direct x - cnt) 0
+                              then let y := ty k in sety k (upd_y y [] (rcb y) (acc y) (inflight y) (ans y) (reflag y) (rq y) (lost y ++ ids_of (acb y)))
+                              else k in
+                     remove_direct i k cnt
+                   else emit k [OErr c id ENoSub] in
+          (k, Some i, next s, mqsub s)
+      | None => (emit (k0 x inst0) [OErr c id (if Nat.eqb cnt 0 then EInvalid else ENoSub)], None, next s, mqsub s)
+      end
+  | QToken t :: q =>
+      let x := with_q x q in
+      let x' := {| cqueue := cqueue x; cur := cur x; direct := direct x; tokset := true; tok := t; disc := disc x |} in
+      match cur x with
+      | Some i => (if tokset x then reaccess c i (k0 x' (insts s i)) else k0 x' (insts s i), Some i, next s, mqsub s)
+      | None => (k0 x' inst0, None, next s, mqsub s)
+      end
+  | QAccess i :: q =>
+      let x := with_q x q in
+      let y := insts s i in
+      let k := k0 x y in
+      let k :=
+        if is_gone (cv s) i then k
+        else match ans y with
+             | Some g =>
+                 let k := sety k (upd_y y [] (rcb y) (Some g) false None (reflag y) (rq y) (lost y)) in
+                 fold_left (run_cb c i g) (acb y) k
+             | None => k
+             end in
+      (k, Some i, next s, mqsub s)
+  | QSub i :: q =>
+      let x := with_q x q in
+      let y := csubs (cv s) i in
+      let k := k0 x (insts s i) in
+      let k :=
+        match Conv.cq val upd y with
+        | Conv.CEvent _ e :: _ =>
+            let o := if Conv.loaded val upd y && negb (Conv.flag val upd y)
+                     then snd (proc_o c (Conv.sver val upd y, Conv.sval val upd y) e) else [] in
+            emit (act k (Conv.RunC upd i)) o
+        | Conv.CLoaded _ :: _ =>
+            let k := act k (Conv.RunC upd i) in
+            if Conv.gone val upd y then k
+            else let z := ty k in
+                 respond c i (sety k (upd_y z (acb z) [] (acc z) (inflight z) (ans z) (reflag z) (rq z) (lost z))) (rcb z)
+        | Conv.CReacc _ :: _ => reaccess c i (act k (Conv.RunC upd i))
+        | [] => act k (Conv.RunC upd i)
+        end in
+      (k, Some i, next s, mqsub s)
+  | QDispose :: q =>
+      let x := with_q x q in
+      let k := k0 (with_cd x None 0) (match cur x with Some i => insts s i | None => inst0 end) in
+      let k := fold_left act (map (fun j => Conv.Dispose upd j true) (insts_of s c)) k in
+      let y := ty k in
+      let k := sety k (upd_y y [] [] (acc y) (inflight y) (ans y) (reflag y) (rq y) (lost y ++ ids_of (acb y) ++ rcb y)) in
+      (emit k [OConnUnsub c], cur x, next s, mqsub s)
+  end.
 
 (* the Conv actions one op stands for *)
 Definition acts_of (s : st) (o : op) : list (Conv.action upd) :=
   match o with
-  | CSub _ _ | CUnsub _ _ _ | Disc _ => []
+  | CSub _ _ | CUnsub _ _ _ | Disc _ | ConnToken _ _ => []
   | MqAccess i _ => if Nat.ltb i (next s) && unanswered (insts s i) then [Conv.SvcNop upd i] else []
   | MqGet => if getreq s && negb (Conv.answered val upd (cv s)) then [Conv.SvcAnswer upd] else []
   | MqEvent u => if mqsub s then [Conv.SvcUpdate upd u] else [Conv.SvcUpdate upd u; Conv.RunE upd]
   | MqCustom => if mqsub s then [Conv.SvcCustom upd] else [Conv.SvcCustom upd; Conv.RunE upd]
+  | MqReacc => if mqsub s then [Conv.SvcReacc upd] else [Conv.SvcReacc upd; Conv.RunE upd]
   | GrantEs => [Conv.RunE upd]
-  | GrantConn c =>
-      let x := conns s c in
-      match cqueue x with
-      | [] => []
-      | QReq id :: _ =>
-          match cur x with
-          | None => [Conv.Subscribe upd (next s)]
-          | Some i =>
-              match acc (insts s i) with
-              | Some true => if is_live (cv s) i then respond_acts i (csubs (cv s) i) [id] else []
-              | _ => []
-              end
-          end
-      | QUnsub _ cnt :: _ =>
-          match cur x with
-          | Some i => if Nat.leb 1 cnt && Nat.leb cnt (direct x) && Nat.eqb (direct x - cnt) 0 then [Conv.Dispose upd i false] else []
-          | None => []
-          end
-      | QAccess i :: _ =>
-          if is_gone (cv s) i then []
-          else match ans (insts s i) with
-               | Some true => if is_live (cv s) i then respond_acts i (csubs (cv s) i) (acb (insts s i)) else []
-               | Some false => if Nat.eqb (direct x - length (acb (insts s i))) 0 then [Conv.Dispose upd i false] else []
-               | None => []
-               end
-      | QSub i :: _ =>
-          let σ1 := cstep (cv s) (Conv.RunC upd i) in
-          let was_loading := negb (is_live (cv s) i) && is_live σ1 i in
-          Conv.RunC upd i :: (if was_loading then respond_acts i (csubs σ1 i) (rcb (insts s i)) else [])
-      | QDispose :: _ => map (fun i => Conv.Dispose upd i true) (insts_of s c)
-      end
+  | GrantConn c => ta (fst (fst (fst (conn_task s c))))
   end.
 
 Definition step (s : st) (o : op) : st * list out :=
@@ -185,17 +345,21 @@ Definition step (s : st) (o : op) : st * list out :=
   | CUnsub c id cnt =>
       let x := conns s c in
       if disc x then (s, []) else (keep (set_conn (conns s) c (push_q x (QUnsub id cnt))), [])
+  | ConnToken c t =>
+      let x := conns s c in
+      (* (the connection's subscription for its own events is given up by the disposal task, not by the client's leaving) *)
+      if is_done x then (s, []) else (keep (set_conn (conns s) c (push_q x (QToken t))), [])
   | Disc c =>
       let x := conns s c in
       if disc x then (s, []) else
-      (keep (set_conn (conns s) c {| cqueue := cqueue x ++ [QDispose]; cur := cur x; direct := direct x; disc := true |}), [])
+      (keep (set_conn (conns s) c {| cqueue := cqueue x ++ [QDispose]; cur := cur x; direct := direct x; tokset := tokset x; tok := tok x; disc := true |}), [])
   | MqAccess i g =>
       let y := insts s i in
       if Nat.ltb i (next s) && unanswered y then
         ({| cv := σ'; conns := conns s; next := next s; mqsub := mqsub s; getreq := getreq s;
-            insts := set_inst (insts s) i {| owner := owner y; acb := acb y; rcb := rcb y; acc := acc y; ans := Some g; lost := lost y |} |}, [])
+            insts := set_inst (insts s) i (upd_y y (acb y) (rcb y) (acc y) (inflight y) (Some g) (reflag y) (rq y) (lost y)) |}, [])
       else (s, [])
-  | MqGet | MqEvent _ | MqCustom => (keep (conns s), [])
+  | MqGet | MqEvent _ | MqCustom | MqReacc => (keep (conns s), [])
   | GrantEs =>
       let first_get := is_add_head (cv s) && negb (getreq s) in
       let own := fun i => owner (insts s i) in
@@ -203,95 +367,13 @@ Definition step (s : st) (o : op) : st * list out :=
           mqsub := mqsub s; getreq := getreq s || is_add_head (cv s) |},
        if first_get then [OGetReq] else [])
   | GrantConn c =>
-      let x := conns s c in
-      match cqueue x with
+      match cqueue (conns s c) with
       | [] => (s, [])
-      | QReq id :: q =>
-          match cur x with
-          | None =>
-              (* NewSubscription; cache.Subscribe; CanGet sends the access request *)
-              let i := next s in
-              ({| cv := σ'; mqsub := true; getreq := getreq s; next := S i;
-                  conns := set_conn (conns s) c {| cqueue := q; cur := Some i; direct := 1; disc := disc x |};
-                  insts := set_inst (insts s) i {| owner := c; acb := [id]; rcb := []; acc := None; ans := None; lost := [] |} |},
-               (if mqsub s then [] else [OMqSub]) ++ [OAccessReq c i])
-          | Some i =>
-              let y := insts s i in
-              let x' := {| cqueue := q; cur := cur x; direct := S (direct x); disc := disc x |} in
-              match acc y with
-              | Some true =>
-                  if is_live (cv s) i then
-                    ({| cv := σ'; conns := set_conn (conns s) c x'; insts := insts s; next := next s; mqsub := mqsub s; getreq := getreq s |},
-                     respond_ids c (csubs (cv s) i) [id])
-                  else
-                    ({| cv := σ'; conns := set_conn (conns s) c x'; next := next s; mqsub := mqsub s; getreq := getreq s;
-                        insts := set_inst (insts s) i (with_cbs y (acb y) (rcb y ++ [id]) (acc y) (lost y)) |}, [])
-              | _ =>
-                  ({| cv := σ'; conns := set_conn (conns s) c x'; next := next s; mqsub := mqsub s; getreq := getreq s;
-                      insts := set_inst (insts s) i (with_cbs y (acb y ++ [id]) (rcb y) (acc y) (lost y)) |}, [])
-              end
-          end
-      | QUnsub id cnt :: q =>
-          match cur x with
-          | Some i =>
-              if Nat.eqb cnt 0 then (keep (set_conn (conns s) c (with_q x q)), [OErr c id EInvalid])
-              else if Nat.leb cnt (direct x) then
-                let y := insts s i in
-                if Nat.eqb (direct x - cnt) 0 then
-                  (* tryDelete: Dispose drops whatever still waits *)
-                  ({| cv := σ'; next := next s; mqsub := mqsub s; getreq := getreq s;
-                      conns := set_conn (conns s) c {| cqueue := q; cur := None; direct := 0; disc := disc x |};
-                      insts := set_inst (insts s) i (with_cbs y [] [] (acc y) (lost y ++ acb y ++ rcb y)) |}, [OAck c id cnt])
-                else
-                  (keep (set_conn (conns s) c {| cqueue := q; cur := cur x; direct := direct x - cnt; disc := disc x |}), [OAck c id cnt])
-              else (keep (set_conn (conns s) c (with_q x q)), [OErr c id ENoSub])
-          | None =>
-              (keep (set_conn (conns s) c (with_q x q)), [OErr c id (if Nat.eqb cnt 0 then EInvalid else ENoSub)])
-          end
-      | QAccess i :: q =>
-          let y := insts s i in
-          if is_gone (cv s) i then (keep (set_conn (conns s) c (with_q x q)), [])
-          else match ans y with
-               | Some true =>
-                   if is_live (cv s) i then
-                     ({| cv := σ'; conns := set_conn (conns s) c (with_q x q); next := next s; mqsub := mqsub s; getreq := getreq s;
-                         insts := set_inst (insts s) i (with_cbs y [] (rcb y) (Some true) (lost y)) |},
-                      respond_ids c (csubs (cv s) i) (acb y))
-                   else
-                     ({| cv := σ'; conns := set_conn (conns s) c (with_q x q); next := next s; mqsub := mqsub s; getreq := getreq s;
-                         insts := set_inst (insts s) i (with_cbs y [] (rcb y ++ acb y) (Some true) (lost y)) |}, [])
-               | Some false =>
-                   let left := direct x - length (acb y) in
-                   ({| cv := σ'; next := next s; mqsub := mqsub s; getreq := getreq s;
-                       conns := set_conn (conns s) c {| cqueue := q; cur := if Nat.eqb left 0 then None else cur x; direct := left; disc := disc x |};
-                       insts := set_inst (insts s) i (with_cbs y [] (if Nat.eqb left 0 then [] else rcb y) (Some false)
-                                                               (if Nat.eqb left 0 then lost y ++ rcb y else lost y)) |},
-                    map (fun id => OErr c id EDenied) (acb y))
-               | None => (keep (set_conn (conns s) c (with_q x q)), [])
-               end
-      | QSub i :: q =>
-          let σ1 := cstep (cv s) (Conv.RunC upd i) in
-          let y := csubs (cv s) i in
-          let ev_out :=
-            match Conv.cq val upd y with
-            | Conv.CEvent _ e :: _ =>
-                if Conv.loaded val upd y && negb (Conv.flag val upd y)
-                then snd (proc_o c (Conv.sver val upd y, Conv.sval val upd y) e) else []
-            | _ => []
-            end in
-          let was_loading := negb (is_live (cv s) i) && is_live σ1 i in
-          let z := insts s i in
-          ({| cv := σ'; conns := set_conn (conns s) c (with_q x q); next := next s; mqsub := mqsub s; getreq := getreq s;
-              insts := if was_loading then set_inst (insts s) i (with_cbs z (acb z) [] (acc z) (lost z)) else insts s |},
-           ev_out ++ (if was_loading then respond_ids c (csubs σ1 i) (rcb z) else []))
-      | QDispose :: q =>
-          ({| cv := σ'; next := next s; mqsub := mqsub s; getreq := getreq s;
-              conns := set_conn (conns s) c {| cqueue := q; cur := None; direct := 0; disc := disc x |};
-              insts := match cur x with
-                       | Some i => set_inst (insts s) i (with_cbs (insts s i) [] [] (acc (insts s i)) (lost (insts s i) ++ acb (insts s i) ++ rcb (insts s i)))
-                       | None => insts s
-                       end |},
-           [OConnUnsub c])
+      | _ =>
+          let '(k, oi, nx, ms) := conn_task s c in
+          ({| cv := σ'; conns := set_conn (conns s) c (tx k);
+              insts := match oi with Some i => set_inst (insts s) i (ty k) | None => insts s end;
+              next := nx; mqsub := ms; getreq := getreq s |}, to k)
       end
   end.
 
@@ -309,13 +391,15 @@ Definition exec (t : val) (ops : list op) : st * list out := fold_left exec1 ops
 
 (* What client c holds, kept by the client from the frames sent to it alone: its number of direct subscriptions (one more with
    every successful subscribe response, k fewer with a successful unsubscribe of k) and its copy of the resource (the
-   snapshot of a response that carried it, every change event applied, dropped when the count returns to zero). *)
+   snapshot of a response that carried it, every change event applied, dropped when the count returns to zero or an
+   unsubscribe event revokes the subscriptions). *)
 Record ledger := { lcnt : nat; lcopy : option val }.
 Definition lstep (c : nat) (p : ledger) (o : out) : ledger :=
   match o with
   | OResp c' _ v => if Nat.eqb c' c then {| lcnt := S (lcnt p); lcopy := match v with Some x => Some x | None => lcopy p end |} else p
   | OAck c' _ k => if Nat.eqb c' c then {| lcnt := lcnt p - k; lcopy := if Nat.eqb (lcnt p - k) 0 then None else lcopy p |} else p
   | OEvent c' u => if Nat.eqb c' c then {| lcnt := lcnt p; lcopy := option_map (app u) (lcopy p) |} else p
+  | OUnsubEv c' => if Nat.eqb c' c then {| lcnt := 0; lcopy := None |} else p
   | _ => p
   end.
 Definition client (c : nat) (outs : list out) : ledger := fold_left (lstep c) outs {| lcnt := 0; lcopy := None |}.
@@ -324,6 +408,12 @@ Definition client (c : nat) (outs : list out) : ledger := fold_left (lstep c) ou
    meets subscribe requests that are still waiting: recorded finding KF-PENDING-DROPPED) *)
 Definition no_underflow (c : nat) (outs : list out) : Prop :=
   forall pre id k post, outs = pre ++ OAck c id k :: post -> k <= lcnt (client c pre).
+
+(* the client is never sent an empty resource set while it holds nothing (it is, when it gives up its last subscription while
+   another subscribe request of its own waits for a re-validation: the gateway still counts that request, keeps the
+   subscription, and later answers the request with an empty set) *)
+Definition no_bare_resp (c : nat) (outs : list out) : Prop :=
+  forall pre id post, outs = pre ++ OResp c id None :: post -> 0 < lcnt (client c pre).
 
 (* ids of the responses (results, acknowledgements and errors) sent to c *)
 Definition resps (c : nat) (outs : list out) : list nat :=
@@ -342,20 +432,20 @@ Definition has_data (c : nat) (o : out) : bool := match o with OResp c' _ (Some 
 (* frames sent to c and requests made on its behalf *)
 Definition for_conn (c : nat) (o : out) : bool :=
   match o with
-  | OResp c' _ _ | OErr c' _ _ | OAck c' _ _ | OEvent c' _ | OCustom c' | OAccessReq c' _ => Nat.eqb c' c
+  | OResp c' _ _ | OErr c' _ _ | OAck c' _ _ | OEvent c' _ | OCustom c' | OUnsubEv c' | OAccessReq c' _ _ => Nat.eqb c' c
   | _ => false
   end.
 Definition count_out (f : out -> bool) (outs : list out) : nat := length (filter f outs).
 Definition is_getreq (o : out) := match o with OGetReq => true | _ => false end.
 Definition is_mqsub (o : out) := match o with OMqSub => true | _ => false end.
 Definition pending (s : st) (c : nat) : nat :=
-  match cur (conns s c) with Some i => length (acb (insts s i)) + length (rcb (insts s i)) | None => 0 end.
+  match cur (conns s c) with Some i => length (ids_of (acb (insts s i))) + length (rcb (insts s i)) | None => 0 end.
 
 (* nothing left to do: both kinds of queue are empty and every request the gateway sent has been answered *)
 Definition quiescent (s : st) : Prop :=
   Conv.qe val upd (cv s) = [] /\
   (forall c, cqueue (conns s c) = []) /\
   (getreq s = true -> Conv.answered val upd (cv s) = true) /\
-  (forall i, i < next s -> unanswered (insts s i) = false).
+  (forall i, i < next s -> inflight (insts s i) = false).
 
 End Core.
